@@ -16,10 +16,11 @@ JOURNAL = {"previous_change", "all_changes", "simulation", "previous_total_energ
 def canon_key(c):
     if c is None:
         return None
+    # physical value (magnitude × unit scale) and dimension: an in-place unit conversion is not a change
     if c["t"] == "q":
-        return ("q", c["m"], c["unit"])
+        return ("q", round(float(c["m"]) * float(c["scale"]), 12) if abs(float(c["m"]) * float(c["scale"])) < 1e3 else float("%.12g" % (float(c["m"]) * float(c["scale"]))), tuple(c["dim"]))
     if c["t"] == "h":
-        return ("h", tuple(c["ks"]), tuple(c["vs"]), c["unit"])
+        return ("h", tuple(c["ks"]), tuple(float("%.12g" % (v * float(c["scale"]))) for v in c["vs"]), tuple(c["dim"]))
     return (c["t"], c.get("repr"))
 
 
